@@ -103,7 +103,8 @@ JudgeB(c) ==
       badadj == FirstBad(Len(I.adj), LAMBDA i : i > Len(c.adj) \/ c.adj[i] # I.adj[i])
       drift == IF c.hasadj = 1 /\ (Len(c.adj) # Len(I.adj) \/ badadj # 0)
                THEN (IF I.tie THEN "adjust-float-tie" ELSE "adjust:i" \o Str(badadj))
-               ELSE BeeperExact(PQ, vol, IF c.hasadj = 1 THEN c.adj ELSE I.adj, obs)
+               ELSE LET d == BeeperExact(PQ, vol, IF c.hasadj = 1 THEN c.adj ELSE I.adj, obs)
+                    IN IF d # "" /\ c.hasadj = 0 /\ I.tie THEN "adjust-float-tie" ELSE d
       \* which statements had something to say about this case (for the vacuity guard of the harness)
       tag == LET F == FlipTimes(D.adj)
                  m == Min(Len(obs), NumSamples(PQ, IF F = <<>> THEN 0 ELSE F[Len(F)]))
@@ -237,10 +238,13 @@ JudgeA(c) ==
                     IN IF usebpr
                        THEN (IF k <= Len(per) THEN UNION {MixPcm(side, vol, x[1], x[2]) : x \in BeeperAlt(PQ, per[k], k)} ELSE MixPcm(side, vol, 0, 1))
                        ELSE AYPcm(side, vol)
-      bad == FirstBad(Min(n, nexp), LAMBDA k : \E s \in 1..nch : st[s][k] \notin Want(k, s))
+      \* where m * (frames per sample) is a whole number the floating point sum may load the frame one sample later
+      bad == FirstBad(Min(n, nexp), LAMBDA k : ~LoadTie(FS, k) /\ \E s \in 1..nch : st[s][k] \notin Want(k, s))
+      badtie == FirstBad(Min(n, nexp), LAMBDA k : LoadTie(FS, k) /\ \E s \in 1..nch : st[s][k] \notin Want(k, s))
       tie == \E k \in 1..(n + 1) : LoadTie(FS, k)
       drift == IF n # nexp THEN (IF tie /\ Abs(n - nexp) <= 1 THEN "ay-count-float-tie" ELSE "ay-count:want" \o Str(nexp) \o ":got" \o Str(n))
                ELSE IF bad # 0 THEN (IF TS[1] >= TS[2] THEN "ay-sample-slow-clock" ELSE "ay-sample:k" \o Str(bad))
+               ELSE IF badtie # 0 THEN "ay-sample-float-tie"
                ELSE ""
       lowrate == TS[1] >= TS[2]
       tag == "a" \o (IF vol = 0 THEN ":vol0" ELSE IF usebpr THEN ":bpr"
